@@ -10,7 +10,7 @@ import dis
 import inspect
 import sys
 
-TOOL = sys.monitoring.PROFILER_ID
+TOOL = sys.monitoring.PROFILER_ID if hasattr(sys, "monitoring") else None  # CPython >= 3.12 (the repository interpreter)
 _state = {"installed": False, "codes": {}, "last": {}, "counts": None}
 
 
